@@ -28,7 +28,7 @@ type T struct {
 	close int // index of the closing bracket (list, obj, listT, ss)
 }
 
-func leaf(tag, s string) *T   { return &T{Tag: tag, Str: s} }
+func leaf(tag, s string) *T       { return &T{Tag: tag, Str: s} }
 func node(tag string, k ...*T) *T { return &T{Tag: tag, Kids: k} }
 
 func (t *T) clone() *T {
@@ -49,7 +49,7 @@ type Lex struct {
 	Text  string `json:"t"`
 }
 
-func punct(s string) Lex  { return Lex{'p', s, s} }
+func punct(s string) Lex   { return Lex{'p', s, s} }
 func nameLex(s string) Lex { return Lex{'n', s, s} }
 
 // ---- printer ----------------------------------------------------------------------------------
@@ -514,7 +514,7 @@ func (c *exChooser) next() bool {
 // profile: the alphabets.
 type profile struct {
 	fieldNames, aliases, argNames, dirNames, varNames, typeNames, fragNames, opNames, enums []string
-	ints, floats, strs                                                                   []string
+	ints, floats, strs                                                                      []string
 }
 
 // tiny: one ordinary spelling and one keyword-like spelling per context (every name that is legal
